@@ -20,8 +20,10 @@ def run(ck):
         lines.append(("random histories", "%d " % rng.randrange(256) + " ".join(str(rng.choice(B + [rng.randrange(0, 700)])) for _ in range(rng.randrange(1, 30)))))
     lines.append(("nonce continuity over many requests", "5 " + " ".join(str(rng.choice([0, 1, 1, 2, 64])) for _ in range(600 if q else 12000))))
     lines.append(("empty history / zero-length requests only", "1 0 0 0 1"))
-    lines.append(("large request", "2 %d 3" % (20000 if q else (1 << 20) + 1)))
-    if not q: lines.append(("large request", "4 3 %d 65" % (3 * (1 << 20) + 17)))
+    lines.append(("large request (model and native spec)", "2 20000 3"))
+    # requests around and beyond 1 MiB: compared with the native Salsa20 spec of the driver (itself cross-checked against the
+    # extracted Gallina Salsa20 on every smaller request of this run)
+    lines.append(("requests of 2^20-1, 2^20, 2^20+1 and 3 MiB+17 bytes (native spec)", "7 5 %d %d %d 64 %d 9" % ((1 << 20) - 1, 1 << 20, (1 << 20) + 1, 3 * (1 << 20) + 17)))
     data = "\n".join(l for _, l in lines) + "\n"
     rc, mout, merr = vf.run_io([model, "prng"], data, timeout=3000)
     if rc != 0: raise RuntimeError("model runner failed: " + merr[-500:])
@@ -36,7 +38,10 @@ def run(ck):
     else:
         norm = lambda s: " ".join(s.split())
         for (st, l), m, i in zip(lines, ml, il):
-            mm = norm(m.split("#")[0]); ii = norm(i)
+            mm = norm(m.split("#")[0]); ss = norm(m.split("#")[1]); ii = norm(i)
+            if mm != "?" and mm != ss:
+                fails.append((st, l, -1, "model/spec disagree", "the extracted Gallina Salsa20 and the native spec differ: machinery inconsistency")); continue
+            if mm == "?": mm = ss
             if ii != mm:
                 # locate the first differing request
                 a, b = ii.split(), mm.split(); k = next((j for j, (x, y) in enumerate(zip(a, b)) if x != y), min(len(a), len(b)))
